@@ -219,8 +219,12 @@ func checkVal(t *testing.T, c ValCase) (v harness.Verdict) {
 				continue
 			}
 			if lo.err != nil {
-				// a file holding >= 1 log config must load; validity is judged afterwards
-				v.Failf("file-load-failed:"+f.form, "LogConfigFromFile(%s form) failed on a serialised LogConfigSet with %d logs: %v", f.form, len(c.Logs), lo.err)
+				// A refusal by the loader is a rejection like any other: only wrong for a well-formed set.
+				// (Seen on the unchanged tree for malformed sets only: the loader tries the text syntax
+				// first, and a binary LogConfigSet whose single config is 35 octets long starts "\n#",
+				// i.e. reads as a comment-only text file -> "empty log config found".)
+				v.Class("file:loader-refused/" + f.form)
+				r.expect("LogConfigFromFile/"+f.form, lo, want, perSet)
 				continue
 			}
 			if !proto.Equal(&configpb.LogConfigSet{Config: loaded}, set) {
